@@ -318,7 +318,7 @@ class HistoryGen:
             if six:
                 kinds += ['SCALE', 'ADDTO', 'APPLYFUNC'] * 3
             if self.opmix == 'views':
-                kinds += ['SLICE'] * 6 + ['SET', 'GET', 'APPLY'] * 3
+                kinds += ['SLICE'] * 6 + ['SET', 'GET', 'APPLY'] * 3 + ['GET1', 'SET1'] * 2
             if self.opmix == 'bulk':
                 kinds += ['APPLYSLICE', 'COPYFROM', 'RESHAPE', 'UNROLL', 'UNROLLW', 'CONTIG', 'MAX', 'MIN', 'APPLY', 'SLICE'] * 2
             if self.opmix == 'all':
@@ -413,8 +413,10 @@ class HistoryGen:
                 self.emit('%s %d' % (k, i), sh.op_max(i) if k == 'MAX' else sh.op_min(i))
             elif k in ('GET1', 'SET1', 'APPLY1'):
                 wide = [d for d in a.shape if d > 1]
-                if len(a.shape) != 1 and len(wide) != 1:
+                if len(a.shape) != 1 and len(wide) == 0:
                     continue
+                # on an array with SEVERAL wide axes the single-axis accessors address the FIRST wide axis (the others at 0):
+                # legal, and it leaves whatever the accessor keeps internally in a state a later view could inherit
                 n = a.shape[0] if len(a.shape) == 1 else wide[0]
                 l = r.randint(0, n - 1)
                 if k == 'GET1':
